@@ -366,7 +366,8 @@ func (f *Frame) applyContract(ct *Contract, fn *ssa.Function, sig *types.Signatu
 					if v, ok := resVars[a.Name]; ok && v.GT != nil {
 						if pt, ok := v.GT.Underlying().(*types.Pointer); ok {
 							hn, hs := ex.heapOfType(pt.Elem())
-							locs = append(locs, Loc{Heap: hn, HSort: hs, Base: v.T, Field: -1})
+							// the cell is only writable by the callee if the result really is a new object
+							locs = append(locs, Loc{Heap: hn, HSort: hs, Base: v.T, Field: -1, Cond: fmt.Sprintf("(< %s %s)", pre.brk, v.T)})
 						}
 					}
 				}
@@ -509,6 +510,22 @@ func (env *SpecEnv) evalLoc(e *SExpr) []Loc {
 		}
 		if m := ex.P.models[e.Name]; m != nil {
 			x := env.Eval(e.Args[0])
+			// a model field defined (non-pointwise) through another location: the location is that of its definition,
+			// so that `modifies m(x)` and reads of m(x) talk about the same cells
+			if x.GT != nil {
+				if rp := ex.P.reprFor(m.Name, x.GT); rp != nil && rp.Index == nil && env.expandOK(rp) && (rp.Body.Op == "call" || rp.Body.Op == "field" || rp.Body.Op == "index") {
+					n := env.child()
+					n.f = nil
+					n.rdepth = env.rdepth + 1
+					if p := ex.P.typesPkg(rp.Pkg); p != nil {
+						n.pkg = p
+					}
+					n.vars = map[string]Val{rp.Self: x}
+					if rp.Body.Op != "call" || ex.P.models[rp.Body.Name] != nil {
+						return n.evalLoc(rp.Body)
+					}
+				}
+			}
 			vt := env.resolveTypeIn(m.Type, m.Pkg)
 			return []Loc{{Heap: "G:" + m.Name, HSort: ArrS(SInt, vt.S), Base: env.ref(x, e.Args[0]), Field: -1}}
 		}
@@ -809,11 +826,32 @@ func (f *Frame) resolveName(name string, st *PState) (Val, bool) {
 	if len(cands) == 0 {
 		return Val{}, false
 	}
+	// an address-taken local (or a captured variable) is a cell: its current content wins over any
+	// DebugRef'd snapshot registered under the same name
+	for k := len(cands) - 1; k >= 0; k-- {
+		c := cands[k]
+		v, ok := f.vals[c]
+		if !ok {
+			continue
+		}
+		if al, isAlloc := c.(*ssa.Alloc); isAlloc {
+			if al.Comment != name {
+				continue // an object that only got the name through a DebugRef (composite literal, new): not the variable's cell
+			}
+			pt := al.Type().(*types.Pointer)
+			return Val{T: f.ex.loadLV(st, f.ex.lvOf(v)), S: f.ex.reg.SortOf(pt.Elem()), GT: pt.Elem()}, true
+		}
+		if fv, isFV := c.(*ssa.FreeVar); isFV {
+			if pt, ok := fv.Type().(*types.Pointer); ok {
+				return Val{T: f.ex.loadLV(st, f.ex.lvOf(v)), S: f.ex.reg.SortOf(pt.Elem()), GT: pt.Elem()}, true
+			}
+		}
+	}
 	// prefer the latest candidate whose definition is already computed
 	for k := len(cands) - 1; k >= 0; k-- {
 		c := cands[k]
 		if v, ok := f.vals[c]; ok {
-			if al, isAlloc := c.(*ssa.Alloc); isAlloc {
+			if al, isAlloc := c.(*ssa.Alloc); isAlloc && al.Comment == name {
 				// address-taken local: its current content
 				pt := al.Type().(*types.Pointer)
 				lv := f.ex.lvOf(v)
@@ -870,6 +908,7 @@ func (f *Frame) loopHeader(h *ssa.BasicBlock, li *loopInfo, st *PState, edges []
 		f.dryRun(h, li, st)
 	}
 	// 4. havoc
+	before := st.clone()
 	if li.modAll {
 		f.havocAll(st)
 	} else {
@@ -881,6 +920,9 @@ func (f *Frame) loopHeader(h *ssa.BasicBlock, li *loopInfo, st *PState, edges []
 		nb := ex.vc.Fresh("brk", SInt)
 		ex.vc.Assume(fmt.Sprintf("(>= %s %s)", nb, st.brk))
 		st.brk = nb
+	}
+	if !li.modAll {
+		f.keepUnwrittenCells(before, st, func(b *ssa.BasicBlock) bool { return li.body[b] }, nil)
 	}
 	for _, phi := range phis {
 		v := ex.havocVal("lp_"+phi.Name(), phi.Type())
@@ -917,10 +959,13 @@ func (f *Frame) loopBackEdge(from, h *ssa.BasicBlock, li *loopInfo, st *PState) 
 	ex := f.ex
 	key := fmt.Sprintf("loop%d", f.loopOrd[h])
 	invs := f.invariantsFor(key)
+	guard := f.edgeGuard(from, h)
 	if len(invs) == 0 {
+		if !li.modAll {
+			f.frameAt(sortedKeys(li.mods), st, guard, key+"-step")
+		}
 		return
 	}
-	guard := f.edgeGuard(from, h)
 	idx := -1
 	for k, p := range h.Preds {
 		if p == from {
@@ -956,6 +1001,10 @@ func (f *Frame) loopBackEdge(from, h *ssa.BasicBlock, li *loopInfo, st *PState) 
 	}
 	for phi, v := range saved {
 		f.vals[phi] = v
+	}
+	// the heap reaching the back edge is forgotten at the loop head: check the frame here
+	if !li.modAll {
+		f.frameAt(sortedKeys(li.mods), st, guard, key+"-step")
 	}
 }
 
@@ -1215,7 +1264,7 @@ func (f *Frame) runCallback(cb *Closure, ys []Val, st *PState) (*PState, Val, bo
 	}
 	merged := nf.mergeStates(edges)
 	res := Val{T: "false", S: SBool}
-	if fn.Signature.Results().Len() == 1 {
+	if fn.Signature.Results().Len() == 1 && ex.reg.SortOf(fn.Signature.Results().At(0).Type()) == SBool {
 		t := ""
 		for k := len(rets) - 1; k >= 0; k-- {
 			if t == "" {
@@ -1225,6 +1274,9 @@ func (f *Frame) runCallback(cb *Closure, ys []Val, st *PState) (*PState, Val, bo
 			}
 		}
 		res = Val{T: ex.vc.Define("cbret", SBool, t), S: SBool}
+	} else if fn.Signature.Results().Len() >= 1 {
+		// a callback that does not return a stop flag: whether the iteration stops is unknown
+		res = Val{T: ex.vc.Fresh("cbstop", SBool), S: SBool}
 	}
 	return merged, res, true
 }
@@ -1329,6 +1381,9 @@ func (f *Frame) iterateCall(ct *Contract, sig *types.Signature, args []Val, vars
 	// 3. arbitrary iteration
 	body := st.clone()
 	havoc(body)
+	if !modAll {
+		f.keepUnwrittenCells(st, body, nil, cb.Fn.(*ssa.Function))
+	}
 	n := ex.vc.Fresh("iter_n", SInt)
 	ex.vc.Assume(fmt.Sprintf("(>= %s 0)", n))
 	eb := mkInvEnv(body, n, "false")
@@ -1362,8 +1417,15 @@ func (f *Frame) iterateCall(ct *Contract, sig *types.Signature, args []Val, vars
 		ex.vc.AddObligation(&Obligation{Name: fmt.Sprintf("%s/%s/inv-step[%s]%s", tag, ex.oblPrefix, key, f.inlineSuffix()), Tag: tag, Kind: "inv-step", Func: ex.top.String(),
 			Goal: implies(post.reach, ep.boolE(inv.Expr)), Desc: "iteration invariant preserved by the callback: " + inv.Src, Pos: f.pos(in)})
 	}
+	if !modAll {
+		f.frameAt(sortedKeys(mods), post, post.reach, key+"-step")
+	}
 	// 4. after the iteration
+	beforeIt := st.clone()
 	havoc(st)
+	if !modAll {
+		f.keepUnwrittenCells(beforeIt, st, nil, cb.Fn.(*ssa.Function))
+	}
 	nf := ex.vc.Fresh("iter_nf", SInt)
 	ex.vc.Assume(fmt.Sprintf("(>= %s 0)", nf))
 	stopped := ex.vc.Fresh("iter_stopped", SBool)
@@ -1379,4 +1441,125 @@ func (f *Frame) iterateCall(ct *Contract, sig *types.Signature, args []Val, vars
 	}
 	out := ex.havocVal("iter_res", rt)
 	return out, true
+}
+
+// keepUnwrittenCells: after a loop/iterator havoc, the cells of this frame's address-taken locals that no
+// instruction of the loop body (inBody) or of the callback closure (cb) can write keep their content.
+func (f *Frame) keepUnwrittenCells(before, after *PState, inBody func(*ssa.BasicBlock) bool, cb *ssa.Function) {
+	ex := f.ex
+	writes := func(addr ssa.Value, where func(ssa.Instruction) bool) bool {
+		// does any instruction selected by `where` store through addr (or an address derived from it), or pass it on?
+		var seen = map[ssa.Value]bool{}
+		var rec func(v ssa.Value) bool
+		rec = func(v ssa.Value) bool {
+			if seen[v] || v.Referrers() == nil {
+				return false
+			}
+			seen[v] = true
+			for _, r := range *v.Referrers() {
+				if _, isMC := r.(*ssa.MakeClosure); !isMC && !where(r) {
+					continue // closures capturing the cell are inspected wherever they are created
+				}
+				switch i := r.(type) {
+				case *ssa.Store:
+					if i.Addr == v {
+						return true
+					}
+					if i.Val == v {
+						return true // address escapes into memory
+					}
+				case *ssa.FieldAddr:
+					if rec(i) {
+						return true
+					}
+				case *ssa.IndexAddr:
+					if rec(i) {
+						return true
+					}
+				case *ssa.UnOp, *ssa.DebugRef:
+				case *ssa.MakeClosure:
+					// captured: inspect the closure body
+					fn := i.Fn.(*ssa.Function)
+					for k, b := range i.Bindings {
+						if b == v && k < len(fn.FreeVars) {
+							fv := fn.FreeVars[k]
+							if cellWrittenIn(fv, fn) {
+								return true
+							}
+						}
+					}
+				default:
+					return true // passed to a call, phi, etc.
+				}
+			}
+			return false
+		}
+		return rec(addr)
+	}
+	for val, v := range f.vals {
+		al, ok := val.(*ssa.Alloc)
+		if !ok || v.LV != nil || v.T == "" {
+			continue
+		}
+		hn, hs := ex.heapOfType(al.Type().(*types.Pointer).Elem())
+		bt, ok1 := before.heap[hn]
+		at, ok2 := after.heap[hn]
+		if !ok1 || !ok2 || bt == at {
+			continue
+		}
+		where := func(in ssa.Instruction) bool { return in.Block() != nil && inBody != nil && inBody(in.Block()) }
+		if cb != nil {
+			// iterator call: the body is the callback; the caller's own instructions do not run during the iteration,
+			// only closures capturing the cell matter (MakeClosure referrers are always inspected)
+			where = func(in ssa.Instruction) bool { return false }
+		}
+		if writes(al, where) {
+			continue
+		}
+		ex.vc.Assume(eq(sel(at, v.T), sel(bt, v.T)))
+		_ = hs
+	}
+}
+
+// cellWrittenIn: does fn (or a closure nested in it) write the captured cell fv?
+func cellWrittenIn(fv *ssa.FreeVar, fn *ssa.Function) bool {
+	if fv.Referrers() == nil {
+		return false
+	}
+	var seen = map[ssa.Value]bool{}
+	var rec func(v ssa.Value) bool
+	rec = func(v ssa.Value) bool {
+		if seen[v] || v.Referrers() == nil {
+			return false
+		}
+		seen[v] = true
+		for _, r := range *v.Referrers() {
+			switch i := r.(type) {
+			case *ssa.Store:
+				if i.Addr == v || i.Val == v {
+					return true
+				}
+			case *ssa.FieldAddr:
+				if rec(i) {
+					return true
+				}
+			case *ssa.IndexAddr:
+				if rec(i) {
+					return true
+				}
+			case *ssa.UnOp, *ssa.DebugRef:
+			case *ssa.MakeClosure:
+				inner := i.Fn.(*ssa.Function)
+				for k, b := range i.Bindings {
+					if b == v && k < len(inner.FreeVars) && cellWrittenIn(inner.FreeVars[k], inner) {
+						return true
+					}
+				}
+			default:
+				return true
+			}
+		}
+		return false
+	}
+	return rec(fv)
 }
